@@ -2,7 +2,7 @@
 # usage: tools/seed3_check.sh C07 [tier] - applies a round-3 seeded patch to a scratch worktree (VERIF_REPO, default /tmp/repo-x),
 # runs the property's check there, restores the worktree. /repo is never touched.
 id=$1; tier=${2:-quick}; R=${VERIF_REPO:-/tmp/repo-x}
-src=/verif/seeded/$id-r3; [ -f $src/patch.diff ] || src=/tmp/seed3/out/$id
+src=/verif/seeded/$id-r3; [ -z "$SEEDDIR" ] && [ -f $src/patch.diff ] || src=${SEEDDIR:-/tmp/seed3}/out/$id
 cd /verif
 git -C $R apply $src/patch.diff || { echo "$id: DOES-NOT-APPLY"; exit 2; }
 out=$(GOFLAGS=-mod=mod GOPROXY=off timeout 2400 ./bin/vcheck run --repo $R ${WORKERS:+--workers $WORKERS} --prop $id --tier $tier --no-evidence ${FAILFAST:+--fail-fast} 2>&1); rc=$?
